@@ -36,7 +36,8 @@ func init() {
 		ID: "C17",
 		Explanation: "Decides interface-level and sentinel-level agreement between storage backends, not behavioural equality: (storer-coverage) memory.Storage, filesystem.Storage and the transactional storage satisfy storage.Storer, and the optional " +
 			"interfaces each satisfies are recorded and compared with the frozen table; (missing-data-sentinel) for each backend the lookup methods can return the agreed sentinel (ErrObjectNotFound for EncodedObject/HasEncodedObject/EncodedObjectSize, " +
-			"ErrReferenceNotFound for Reference) somewhere in their static call closure; (loose-miss-falls-back) DotGit.Ref never returns the error of reading the loose file: every failed loose read is answered by packedRef, whose miss is the sentinel. Not decided: equality of results over call sequences (memory.CheckAndSetReference, for one, differs on a missing reference).",
+			"ErrReferenceNotFound for Reference) somewhere in their static call closure; (loose-miss-falls-back) DotGit.Ref never returns the error of reading the loose file: every failed loose read is answered by packedRef, whose miss is the sentinel; (cas-on-missing-refused) with an old value given, a compare-and-set on a reference that is not stored cannot succeed in the memory storage " +
+			"(three-valued search under 'old != nil, looked-up value nil'), as the filesystem compare answers packedRef's ErrReferenceNotFound. Not decided: equality of results over call sequences (memory.CheckAndSetReference, for one, differs on a missing reference).",
 		Assumptions: []string{},
 		Run:         runC17,
 	})
@@ -282,6 +283,61 @@ func runC17(c *Ctx) {
 		}
 	}
 	c.Floor(r0, 1)
+
+	// cas-on-missing-refused: with an old value given, a compare-and-set on a reference that does not exist is refused
+	// by every backend (the filesystem storage answers ErrReferenceNotFound through packedRef). For the memory storage:
+	// under the assumptions "old != nil" and "the looked-up reference is nil" no successful return is reachable.
+	const r0b = "cas-on-missing-refused"
+	if ms := c.MustFunc(r0b, "storage/memory.ReferenceStorage.CheckAndSetReference"); ms != nil {
+		c.Analysed(ms)
+		minfo := ms.Pkg.TypesInfo
+		params := paramObjs(minfo, ms.Decl)
+		var oldP types.Object
+		if len(params) == 2 {
+			oldP = params[1]
+		}
+		// the local that holds the map lookup of the current value
+		var cur types.Object
+		ast.Inspect(ms.Decl.Body, func(n ast.Node) bool {
+			as, ok := n.(*ast.AssignStmt)
+			if !ok || len(as.Rhs) != 1 {
+				return true
+			}
+			if ix, ok := unparen(as.Rhs[0]).(*ast.IndexExpr); ok {
+				if tv := minfo.Types[ix.X]; tv.Type != nil {
+					if _, isMap := tv.Type.Underlying().(*types.Map); isMap {
+						cur = objOf(minfo, as.Lhs[0])
+					}
+				}
+			}
+			return true
+		})
+		if oldP == nil || cur == nil {
+			c.Unresolved(r0b, ms.Name(), ms.Decl.Pos(), "old parameter or the lookup of the current value not found")
+		} else {
+			na := &nilAssume{info: minfo, isNil: map[types.Object]bool{oldP: false, cur: true}}
+			if len(params) > 0 {
+				na.isNil[params[0]] = false
+			}
+			f := p.FlowOf(ms)
+			h := f.Search(SearchOpts{Starts: []Loc{f.Entry()}, BlockEdge: na.blockEdge(), Sink: func(n ast.Node) bool {
+				r, ok := n.(*ast.ReturnStmt)
+				return ok && !returnsNonNilError(minfo, ms.Decl.Body, r)
+			}})
+			c.Check(h == nil, r0b, ms.Name(), ms.Decl.Pos(), orStr(ifStr(h != nil, "with an old value given and no such reference stored, the memory storage can return success (it creates the reference); the filesystem storage refuses with ErrReferenceNotFound"+hitLines(f, h)),
+				"with an old value given and no such reference stored, no successful return is reachable"))
+		}
+	}
+	if fs := c.MustFunc(r0b, dotgitShort+".(*DotGit).checkReferenceAndTruncate"); fs != nil {
+		// filesystem side: the empty (just created) loose file defers to packedRef, whose miss is returned
+		finfo := fs.Pkg.TypesInfo
+		usesPacked := nodeHasCall(fs.Decl.Body, false, func(call *ast.CallExpr) bool {
+			fn := Callee(finfo, call)
+			return fn != nil && fn.Name() == "packedRef"
+		}) != nil
+		c.Check(usesPacked, r0b, fs.Name(), fs.Decl.Pos(), "the filesystem compare consults packedRef for a loose file that was just created; its ErrReferenceNotFound is returned")
+	}
+	c.Floor(r0b, 2)
 	const r1 = "storer-coverage"
 	storerT := p.lookupType("storage", "Storer")
 	if storerT == nil {
